@@ -167,8 +167,9 @@ pub fn run(ctx: &mut Ctx) {
     let cases = ctx.cases(4000, 15);
     ctx.forall("dna_to_iupac_text", cases, gen::seq_spec(CodecId::Dna, max), conv);
     let th = ctx.thorough();
-    let lens = gen::long_lens(th, ctx.seed);
+    let lens = gen::long_lens_bits(2, th, ctx.seed);
     ctx.forall_lens("dna_to_iupac_text_long", &lens, |n| gen::seq_spec_n(CodecId::Dna, n), conv);
+    let lens = gen::long_lens(th, ctx.seed);
     for id in ALL_CODECS {
         let m = id.model();
         let acc = m.accepted_bytes();
